@@ -606,8 +606,11 @@ def _one(arg):
         except Exception as e:
             recs.append(('X:battery_crash', False, lit, 'edited-object clauses crashed: %s' % traceback.format_exc()[-600:]))
     if 'C04' in props and kind != 'MulticlassCarver':
-        r2 = outcome(lambda: obj.fit(case['X'], case['y']))
-        if r2[0] == 'reject': c04(obj, kind, case, cfg, lambda c, ok, m, ex=None: rec(c + '.after_refused_second_fit', ok, m, ex))
+        # a refused second fit -- with the same sample, then with ANOTHER one (every other row, target reversed) -- leaves the mapping untouched
+        yv = case['y']; y_rev = (1 - yv) if case['target'] == 'binary' else (-yv if case['target'] == 'continuous' else yv.iloc[::-1].set_axis(yv.index))
+        for Xs, ys in ((case['X'], yv), (case['X'].iloc[::2], y_rev.iloc[::2])):
+            r2 = outcome(lambda: obj.fit(Xs, ys))
+            if r2[0] == 'reject': c04(obj, kind, case, cfg, lambda c, ok, m, ex=None: rec(c + '.after_refused_second_fit', ok, m, ex))
     if 'C05' in props:
         try: c05(reload(obj, kind), kind, case, cfg, lambda c, ok, m, e=None: rec(c + '.reloaded_from_json', ok, m, e), rng, ref_obj=obj)
         except Exception: recs.append(('X:battery_crash', False, lit, 'C05 on the reloaded object crashed: ' + traceback.format_exc()[-500:]))
